@@ -90,6 +90,10 @@ def storageStep (s : Storage.St) (ws : List String) : Storage.St × String :=
       | some p, some s' =>
         (s', s!"P{i} {stDescribe s p} # {stDigest s'} # en:" ++ joinWith "," ((Storage.enabled s').map (fun j => s!"P{j}")))
       | _, _ => (s, s!"P{i} not-enabled"))
+  | ["explore", w] => match w.toNat? with
+    | some limit => (s, exploreGraph Storage.step (fun x => List.range x.procs.length) (fun x => toString (repr x))
+                          (fun j => s!"P{j}") s limit)
+    | none => (s, "bad-op")
   | ["final"] =>
     (s, "results:" ++ joinWith "|" (s.procs.map (fun p => joinWith "," (p.results.map stRes))) ++ " # " ++ stDigest s)
   | _ => (s, "bad-op")
